@@ -14,6 +14,7 @@ from .common import (sample_constraints, sample_sched, decorate, expected_batche
                      sample_prefix, sample_param_change, second_dataset, run_generic_op, apply_layout, sample_layouts)
 
 PROPERTY = "C10"
+KEY_EVENT = "BATCH"     # the seam this scenario depends on: it must fire somewhere in a batch of runs
 RULE = ("one run = one seeded scenario record (family x GEMINI/affinity source x solver x batch_size x n,d,K x plain/"
         "mlcl-decorated x ops fit[/path/fit] x schedule plan x optimiser mode); non-trivial = some epoch had >= 2 batches; "
         "distinct = distinct (family, gemini/kernel/metric, ovo, solver, batch-size class, K, groups, dynamic, decorated, "
@@ -366,7 +367,7 @@ def execute(record):
                 if kind != "mutate_data" and (not np.array_equal(Xo, before[0]) or (Ao is not None and not np.array_equal(Ao, before[1]))):
                     raise HarnessError("training data mutated during the run (C12 territory); C10 oracle unreliable")
         if log.counts.get("BATCH", 0) == 0 and not res.violations:
-            raise HarnessError("batch seam never fired")
+            res.probe("seam_silent_in_run")   # decided over the whole batch by the runner (KEY_EVENT)
     except SimBudget as e:
         res.violate("C10:budget", {"what": str(e)})
     except HarnessError as e:
